@@ -89,7 +89,7 @@ func VerifC04_Gradient2_ZeroRTT() {
 // the effective minimum exceeds the effective maximum - or returns a limit whose fields are the
 // effective values, so that the clamp max(min, min(max, x)) in OnSample keeps x in [min, max].
 //
-//verif:harness property=C04 theory=bv tier=quick
+//verif:harness property=C04 theory=real tier=quick
 func VerifC04_Gradient2_ConstructorEstablishesBounds() {
 	initial := verif.Int("initial")
 	minL := verif.Int("min")
